@@ -30,8 +30,7 @@ Record Struct (seen : list Z) (st : state) : Prop := {
   s_bl_nodup : NoDup (map fst (backlogs st));
   s_live : NoDup (live_rids st);
   s_nstart : forall r, in_backlogs st r = has_exchange_with st r;
-  s_rng : Forall (fun n => 0 <= n <= RNG_DEN) (rng st);
-  s_norefuse : refusing st = [] }.
+  s_rng : Forall (fun n => 0 <= n <= RNG_DEN) (rng st) }.
 
 Ltac proj := cbn [now next_seq message_id active_exchanges backlogs outgoing_requests rng refusing set_exchanges set_backlogs set_outgoing set_now set_refusing fst snd] in *.
 Ltac splits := repeat match goal with |- _ /\ _ => split end.
@@ -98,21 +97,23 @@ Qed.
 
 Definition rng_ok (st : state) : Prop := Forall (fun n => 0 <= n <= RNG_DEN) (rng st).
 
-Lemma send_initially_struct : forall seen st m st' o,
+(* _add_exchange in a state where the remote has no exchange: the invariant holds again right before the message is handed to the
+   transport -- which is what makes a synchronous refusal "literally a dispatch_error step" (fix 11456f9 for retransmissions) *)
+Lemma add_exchange_struct : forall seen st m st' o,
   Forall (entry_ok seen st) (active_exchanges st) -> NoDup (map e_remote (active_exchanges st)) ->
   Forall (back_ok seen st) (backlogs st) -> NoDup (map fst (backlogs st)) -> NoDup (m_rid m :: live_rids st) ->
   (forall r', r' <> m_remote m -> in_backlogs st r' = has_exchange_with st r') ->
-  has_exchange_with st (m_remote m) = false -> rng_ok st -> refusing st = [] ->
+  has_exchange_with st (m_remote m) = false -> rng_ok st ->
   wf_tuning (m_tuning m) -> In (m_rid m) seen ->
-  _send_initially st m (m_rid m) = (st', o) ->
+  _add_exchange st m (m_rid m) = (st', o) ->
   Struct seen st' /\ exists t, range (m_tuning m) t /\
-     o = [ODraw (now st) (ACK_TIMEOUT (m_tuning m)) (ACK_TIMEOUT (m_tuning m) * ARF_num (m_tuning m) / ARF_den (m_tuning m)) t; OSend (now st) m] /\
-     now st' = now st /\ outgoing_requests st' = outgoing_requests st /\
+     o = [ODraw (now st) (ACK_TIMEOUT (m_tuning m)) (ACK_TIMEOUT (m_tuning m) * ARF_num (m_tuning m) / ARF_den (m_tuning m)) t] /\
+     now st' = now st /\ outgoing_requests st' = outgoing_requests st /\ refusing st' = refusing st /\
      active_exchanges st' = xset (m_remote m, m_mid m) (m_rid m, {| h_due := now st + t; h_seq := next_seq st; h_message := m; h_timeout := t; h_counter := 0 |}) (active_exchanges st) /\
      backlogs st' = (if in_backlogs st (m_remote m) then backlogs st else qset (m_remote m) [] (backlogs st)).
 Proof.
-  intros seen st m st' o Hex Hnd Hbl Hbn Hrids Hns Hno Hrng Hnr Hwf Hseen H.
-  unfold _send_initially, _add_exchange in H.
+  intros seen st m st' o Hex Hnd Hbl Hbn Hrids Hns Hno Hrng Hwf Hseen H.
+  unfold _add_exchange in H.
   set (st1 := if in_backlogs st (m_remote m) then st else set_backlogs st (qset (m_remote m) [] (backlogs st))) in H.
   assert (now st1 = now st /\ next_seq st1 = next_seq st /\ active_exchanges st1 = active_exchanges st /\ outgoing_requests st1 = outgoing_requests st /\ rng st1 = rng st
           /\ backlogs st1 = (if in_backlogs st (m_remote m) then backlogs st else qset (m_remote m) [] (backlogs st)) /\ refusing st1 = refusing st) as [E1 [E2 [E3 [E4 [E5 [E6 E7]]]]]].
@@ -120,8 +121,8 @@ Proof.
   destruct (uniform st1 _ _) as [t st2] eqn:U.
   apply uniform_range in U; auto; [|unfold rng_ok in Hrng; rewrite E5; auto].
   destruct U as [Hr [Hrng2 [U1 [U2 [U3 [U4 [U5 [U6 U7]]]]]]]].
-  unfold _schedule_retransmit, _send_via_transport, is_refusing in H. proj. rewrite U7, E7, Hnr in H. cbn in H. inv H. cbn.
-  rewrite U1, U2, U4, U5, U6, E1, E2, E3, E4, E6.
+  unfold _schedule_retransmit in H. proj. cbn in H. inv H. cbn.
+  rewrite U1, U2, U4, U5, U6, U7, E1, E2, E3, E4, E6, E7.
   split; [|exists t; splits; auto].
   set (k := (m_remote m, m_mid m)).
   set (h := {| h_due := now st + t; h_seq := next_seq st; h_message := m; h_timeout := t; h_counter := 0 |}).
@@ -165,13 +166,11 @@ Proof.
         apply in_backlogs_iff in H. destruct (in_backlogs st (m_remote m)); auto. cbn. right.
         apply in_map_iff in H. destruct H as [x [Hx Hin]]. apply in_map_iff. exists x. split; auto. apply in_qdel. split; auto. congruence.
   - exact Hrng2.
-  - rewrite ?U7, ?E7, ?Hnr. reflexivity.
 Qed.
 
 Definition wf_event (seen : list Z) (e : event) : Prop :=
   match e with
   | ERequest rid r tn => ~ In rid seen /\ wf_tuning tn
-  | ERefuse r on => on = false            (* the theorems are about transports that do not refuse datagrams synchronously *)
   | _ => True
   end.
 Definition seen_after (seen : list Z) (e : event) : list Z :=
@@ -306,6 +305,83 @@ Lemma no_error_nil : no_error []. Proof. intros t e H. inv H. Qed.
 Lemma no_error_app : forall a b, no_error a -> no_error b -> no_error (a ++ b).
 Proof. intros a b Ha Hb t e H. apply in_app_iff in H. destruct H; [eapply Ha | eapply Hb]; eauto. Qed.
 
+Lemma has_exchange_false_l : forall st r, (forall e, In e (active_exchanges st) -> e_remote e <> r) -> has_exchange_with st r = false.
+Proof. intros. apply has_exchange_false. auto. Qed.
+
+Lemma cnt_filter_le : forall (f : exch -> bool) (l : list exch) x,
+  (count_occ Z.eq_dec (map e_rid (filter f l)) x <= count_occ Z.eq_dec (map e_rid l) x)%nat.
+Proof.
+  induction l as [|a l IH]; intros x; [cbn; auto|]. specialize (IH x).
+  cbn [filter]. destruct (f a); cbn [map count_occ]; destruct (Z.eq_dec (e_rid a) x); lia.
+Qed.
+
+(* MessageManager.dispatch_error for a remote: every exchange with it and its backlog are dropped, its requests fail *)
+Lemma error_struct : forall seen st r st' o, Struct seen st -> mm_dispatch_error st r = (st', o) ->
+  Struct seen st' /\ no_error o /\ now st' = now st /\
+  active_exchanges st' = filter (fun e => negb (fst (fst e) =? r)) (active_exchanges st) /\
+  backlogs st' = qdel r (backlogs st) /\
+  outgoing_requests st' = filter (fun q => negb (snd q =? r)) (outgoing_requests st) /\
+  o = map (fun q => OFail (now st) (fst q) NetworkError) (filter (fun q => snd q =? r) (outgoing_requests st)).
+Proof.
+  intros seen st r st' o S H. unfold mm_dispatch_error, tm_dispatch_error in H. inv H. proj. splits; auto.
+  2:{ intros t e Hi. apply in_map_iff in Hi. destruct Hi as [x [Hx _]]. discriminate. }
+  pose proof (s_ex _ _ S) as Hex. rewrite Forall_forall in Hex. pose proof (s_bl _ _ S) as Hbl. rewrite Forall_forall in Hbl.
+  assert (Hsub : forall e, In e (filter (fun e => negb (fst (fst e) =? r)) (active_exchanges st)) <-> In e (active_exchanges st) /\ e_remote e <> r).
+  { intros e. rewrite filter_In, negb_true_iff, Z.eqb_neq. reflexivity. }
+  constructor; proj.
+  - apply Forall_forall. intros e He. apply Hsub in He. eapply entry_ok_frame; [|apply Hex; apply He]. cbn. lia.
+  - apply nodup_map_filter. apply (s_ex_nodup _ _ S).
+  - apply Forall_forall. intros b Hb. apply in_qdel in Hb. eapply back_ok_frame. apply Hbl. apply Hb.
+  - apply nodup_qdel. apply (s_bl_nodup _ _ S).
+  - unfold live_rids. proj. pose proof (s_live _ _ S) as Hl. unfold live_rids in Hl. apply (NoDup_count_occ Z.eq_dec). intros x.
+    rewrite (NoDup_count_occ Z.eq_dec) in Hl. specialize (Hl x). rewrite count_occ_app in *.
+    eapply Nat.le_trans; [apply Nat.add_le_mono; [apply cnt_filter_le | apply cnt_qdel_le] | exact Hl].
+  - intros r'. destruct (Z.eq_dec r' r) as [->|Hne].
+    + transitivity false; [|symmetry; apply has_exchange_false_l; proj; intros e He; apply Hsub in He; tauto].
+      unfold in_backlogs. proj. rewrite qget_qdel_same. reflexivity.
+    + transitivity (in_backlogs st r'); [unfold in_backlogs; proj; rewrite qget_qdel_other; auto|].
+      rewrite (s_nstart _ _ S). apply bool_eq_iff. rewrite !has_exchange_iff. proj. split; intros [e [He1 He2]]; exists e; split; auto.
+      * apply Hsub. split; auto. congruence.
+      * apply Hsub in He1. tauto.
+  - apply (s_rng _ _ S).
+Qed.
+
+Lemma send_via_cases : forall st m st' o, _send_via_transport st m = (st', o) ->
+  (is_refusing st (m_remote m) = false /\ st' = st /\ o = [OSend (now st) m]) \/
+  (is_refusing st (m_remote m) = true /\ mm_dispatch_error st (m_remote m) = (st', o)).
+Proof. intros st m st' o H. unfold _send_via_transport in H. destruct (is_refusing st (m_remote m)); [right|left; inv H]; auto. Qed.
+
+(* _send_initially: the state [st1] right before the transport is called satisfies the invariant; the transport either takes the
+   datagram or refuses it, and a refusal is exactly MessageManager.dispatch_error for that remote in [st1] *)
+Lemma send_initially_struct : forall seen st m st' o,
+  Forall (entry_ok seen st) (active_exchanges st) -> NoDup (map e_remote (active_exchanges st)) ->
+  Forall (back_ok seen st) (backlogs st) -> NoDup (map fst (backlogs st)) -> NoDup (m_rid m :: live_rids st) ->
+  (forall r', r' <> m_remote m -> in_backlogs st r' = has_exchange_with st r') ->
+  has_exchange_with st (m_remote m) = false -> rng_ok st ->
+  wf_tuning (m_tuning m) -> In (m_rid m) seen ->
+  _send_initially st m (m_rid m) = (st', o) ->
+  Struct seen st' /\ exists st1 t oe, Struct seen st1 /\ range (m_tuning m) t /\
+     now st1 = now st /\ outgoing_requests st1 = outgoing_requests st /\ refusing st1 = refusing st /\
+     active_exchanges st1 = xset (m_remote m, m_mid m) (m_rid m, {| h_due := now st + t; h_seq := next_seq st; h_message := m; h_timeout := t; h_counter := 0 |}) (active_exchanges st) /\
+     backlogs st1 = (if in_backlogs st (m_remote m) then backlogs st else qset (m_remote m) [] (backlogs st)) /\
+     ((is_refusing st (m_remote m) = false /\ st' = st1 /\
+       o = [ODraw (now st) (ACK_TIMEOUT (m_tuning m)) (ACK_TIMEOUT (m_tuning m) * ARF_num (m_tuning m) / ARF_den (m_tuning m)) t; OSend (now st) m]) \/
+      (is_refusing st (m_remote m) = true /\ mm_dispatch_error st1 (m_remote m) = (st', oe) /\
+       o = ODraw (now st) (ACK_TIMEOUT (m_tuning m)) (ACK_TIMEOUT (m_tuning m) * ARF_num (m_tuning m) / ARF_den (m_tuning m)) t :: oe)) /\
+     no_error o.
+Proof.
+  intros seen st m st' o Hex Hnd Hbl Hbn Hrids Hns Hno Hrng Hwf Hseen H.
+  unfold _send_initially in H. destruct (_add_exchange st m (m_rid m)) as [st1 o1] eqn:A.
+  destruct (add_exchange_struct seen st m st1 o1 Hex Hnd Hbl Hbn Hrids Hns Hno Hrng Hwf Hseen A) as (S1 & t & Hrg & -> & E1 & E2 & E3 & E4 & E5).
+  destruct (_send_via_transport st1 m) as [st2 o2] eqn:V. inv H.
+  assert (Hir : is_refusing st1 (m_remote m) = is_refusing st (m_remote m)) by (unfold is_refusing; rewrite E3; reflexivity).
+  destruct (send_via_cases _ _ _ _ V) as [(Hr & -> & ->)|(Hr & D)]; rewrite Hir in Hr.
+  - split; auto. exists st1, t, []. splits; auto; [left; rewrite E1; auto|].
+    intros t' e Hi. cbn in Hi. destruct Hi as [Hi|[Hi|Hi]]; try discriminate. tauto.
+  - destruct (error_struct _ _ _ _ _ S1 D) as (S2 & Hne & _). split; auto. exists st1, t, o2. splits; auto.
+    intros t' e Hi. cbn in Hi. destruct Hi as [Hi|Hi]; [discriminate|]. eapply Hne; eauto.
+Qed.
+
 Lemma step_request_struct : forall seen st rid r tn st' o, Struct seen st -> ~ In rid seen -> wf_tuning tn ->
   tm_request st rid r tn = (st', o) -> Struct (rid :: seen) st' /\ no_error o.
 Proof.
@@ -348,13 +424,10 @@ Proof.
     { rewrite <- (s_nstart _ _ S0). unfold in_backlogs. cbn. rewrite Q. reflexivity. }
     change (m_remote m) with r in *.
     apply (send_initially_struct (rid :: seen)) in H; auto; try (destruct S0; auto; fail).
-    + destruct H as [S' [t [Hr [-> _]]]]. split; auto. intros t' e Hin. cbn in Hin. destruct Hin as [Hin|[Hin|Hin]]; try discriminate. tauto.
+    + destruct H as (S' & st1 & t & oe & _ & _ & _ & _ & _ & _ & _ & _ & Hne). split; auto.
     + constructor; auto. apply (s_live _ _ S0).
     + cbn. auto.
 Qed.
-
-Lemma has_exchange_false_l : forall st r, (forall e, In e (active_exchanges st) -> e_remote e <> r) -> has_exchange_with st r = false.
-Proof. intros. apply has_exchange_false. auto. Qed.
 
 Definition mk_timer (st : state) (m : message) (t c : Z) : timer :=
   {| h_due := now st + t; h_seq := next_seq st; h_message := m; h_timeout := t; h_counter := c |}.
@@ -362,21 +435,40 @@ Definition mk_timer (st : state) (m : message) (t c : Z) : timer :=
 Lemma in_back_rids : forall (B : list bent) r q p, In (r, q) B -> In p q -> In (m_rid (fst p)) (back_rids B).
 Proof. intros. unfold back_rids. apply in_flat_map. exists (r, q). split; auto. cbn. unfold q_rids. apply in_map_iff. exists p. auto. Qed.
 
+Lemma loop_S : forall f st r, _continue_backlog_loop (Datatypes.S f) st r =
+  match qget r (backlogs st) with
+  | None => (st, [])
+  | Some q =>
+      if has_exchange_with st r then (st, [])
+      else match q with
+           | (next_message, monitor) :: rest =>
+               let '(st, o1) := _send_initially (set_backlogs st (qset r rest (backlogs st))) next_message monitor in
+               let '(st, o2) := _continue_backlog_loop f st r in
+               (st, o1 ++ o2)
+           | [] => (set_backlogs st (qdel r (backlogs st)), [])
+           end
+  end.
+Proof. reflexivity. Qed.
+
 (* _continue_backlog right after the entry [k] was popped (and possibly the monitor called) *)
 Lemma continue_after_pop : forall seen st k mon h st2 st' o,
   Struct seen st -> xget k (active_exchanges st) = Some (mon, h) ->
   now st2 = now st -> rng st2 = rng st -> active_exchanges st2 = xdel k (active_exchanges st) -> backlogs st2 = backlogs st ->
   refusing st2 = refusing st ->
   _continue_backlog st2 (fst k) = (st', o) ->
-  Struct seen st' /\ no_error o /\ now st' = now st /\ outgoing_requests st' = outgoing_requests st2 /\
+  Struct seen st' /\ no_error o /\
   exists q, qget (fst k) (backlogs st) = Some q /\
     match q with
-    | [] => o = [] /\ active_exchanges st' = xdel k (active_exchanges st) /\ backlogs st' = qdel (fst k) (backlogs st)
-    | (m2, mon2) :: rest => mon2 = m_rid m2 /\ m_remote m2 = fst k /\ wf_tuning (m_tuning m2) /\ In (m_rid m2) seen /\ exists t,
-        range (m_tuning m2) t /\
-        o = [ODraw (now st) (ACK_TIMEOUT (m_tuning m2)) (ACK_TIMEOUT (m_tuning m2) * ARF_num (m_tuning m2) / ARF_den (m_tuning m2)) t; OSend (now st) m2] /\
-        active_exchanges st' = xset (m_remote m2, m_mid m2) (m_rid m2, mk_timer st2 m2 t 0) (xdel k (active_exchanges st)) /\
-        backlogs st' = qset (fst k) rest (backlogs st)
+    | [] => o = [] /\ active_exchanges st' = xdel k (active_exchanges st) /\ backlogs st' = qdel (fst k) (backlogs st) /\
+            now st' = now st /\ outgoing_requests st' = outgoing_requests st2
+    | (m2, mon2) :: rest => mon2 = m_rid m2 /\ m_remote m2 = fst k /\ wf_tuning (m_tuning m2) /\ In (m_rid m2) seen /\ exists t st1 oe,
+        range (m_tuning m2) t /\ Struct seen st1 /\ now st1 = now st /\ outgoing_requests st1 = outgoing_requests st2 /\
+        active_exchanges st1 = xset (m_remote m2, m_mid m2) (m_rid m2, mk_timer st2 m2 t 0) (xdel k (active_exchanges st)) /\
+        backlogs st1 = qset (fst k) rest (backlogs st) /\
+        ((is_refusing st (fst k) = false /\ st' = st1 /\
+          o = [ODraw (now st) (ACK_TIMEOUT (m_tuning m2)) (ACK_TIMEOUT (m_tuning m2) * ARF_num (m_tuning m2) / ARF_den (m_tuning m2)) t; OSend (now st) m2]) \/
+         (is_refusing st (fst k) = true /\ mm_dispatch_error st1 (fst k) = (st', oe) /\
+          o = ODraw (now st) (ACK_TIMEOUT (m_tuning m2)) (ACK_TIMEOUT (m_tuning m2) * ARF_num (m_tuning m2) / ARF_den (m_tuning m2)) t :: oe))
     end.
 Proof.
   intros seen st k mon h st2 st' o S X En Er Ex Eb Enr H.
@@ -394,10 +486,10 @@ Proof.
   { intros r' Hne. rewrite (s_nstart _ _ S). apply bool_eq_iff. rewrite !has_exchange_iff. rewrite Ex. split; intros [e [He1 He2]]; exists e; split; auto.
     - apply in_xdel. split; auto. intros Hk'. apply Hne. rewrite <- He2. unfold e_remote. rewrite Hk'. reflexivity.
     - apply Hrest in He1. tauto. }
-  unfold _continue_backlog in H. rewrite Eb, Q in H. cbn [Nat.add _continue_backlog_loop] in H. rewrite Eb, Q, HX2 in H.
+  unfold _continue_backlog in H. rewrite Eb, Q in H. cbn [Nat.add] in H. rewrite loop_S in H. rewrite Eb, Q, HX2 in H.
   destruct q as [|[m2 mon2] rest].
-  - inv H. proj. splits; auto; [|apply no_error_nil|exists []; auto].
-    constructor; proj; rewrite ?Ex, ?Er, ?Enr; auto; try apply (s_norefuse _ _ S).
+  - inv H. proj. split; [|split; [apply no_error_nil|exists []; splits; auto]].
+    constructor; proj; rewrite ?Ex, ?Er, ?Enr; auto.
     + apply Forall_forall. intros e He. eapply entry_ok_frame; [|apply Hex2; exact He]; cbn; auto; lia.
     + apply Forall_forall. intros b Hb. apply in_qdel in Hb. eapply back_ok_frame; apply Hbl2; apply Hb.
     + apply nodup_qdel. apply (s_bl_nodup _ _ S).
@@ -415,19 +507,23 @@ Proof.
     assert (Hne2 : m_rid m2 <> mon) by (apply Hbr; apply (in_back_rids _ r _ (m2, m_rid m2) Hq); left; reflexivity).
     destruct (_send_initially st3 m2 (m_rid m2)) as [st4 o1] eqn:SI.
     apply (send_initially_struct seen) in SI; rewrite ?Hr2; auto.
-    + destruct SI as (S' & t & Hrg & -> & E1 & E2 & E3 & E4).
-      assert (HX4 : has_exchange_with st4 r = true).
-      { apply has_exchange_iff. rewrite E3. eexists. split; [apply in_xset; left; reflexivity|]. unfold e_remote. cbn. exact Hr2. }
-      assert (in_backlogs st4 r = true) as IB4 by (rewrite (s_nstart _ _ S'); exact HX4).
-      unfold in_backlogs in IB4. destruct (qget r (backlogs st4)) as [q4|] eqn:Q4; [|discriminate].
-      cbn [_continue_backlog_loop] in H. rewrite ?Q4, HX4 in H. inv H. cbn [app]. splits; auto.
-      * intros t' e Hi. cbn in Hi. destruct Hi as [Hi|[Hi|Hi]]; try discriminate. tauto.
-      * rewrite E1. cbn. auto.
-      * exists ((m2, m_rid m2) :: rest). split; auto. splits; auto. exists t. splits; auto.
-        -- cbn. rewrite En. reflexivity.
-        -- rewrite E3. cbn. rewrite Ex. unfold mk_timer. rewrite Hr2. reflexivity.
-        -- rewrite E4. assert (in_backlogs st3 (m_remote m2) = true) as ->; [|reflexivity].
-           unfold in_backlogs, st3. proj. rewrite Hr2, qget_qset_same. reflexivity.
+    + destruct SI as (S' & st1 & t & oe & S1 & Hrg & E1 & E2 & E5 & E3 & E4 & Hcase & Hne1).
+      assert (E4' : backlogs st1 = qset r rest (backlogs st)).
+      { rewrite E4, Hr2. assert (in_backlogs st3 r = true) as ->; [|reflexivity]. unfold in_backlogs, st3. proj. rewrite qget_qset_same. reflexivity. }
+      assert (Hir : is_refusing st3 r = is_refusing st r) by (unfold is_refusing, st3; proj; rewrite Enr; reflexivity).
+      rewrite Hr2, Hir in Hcase.
+      assert (Hloop : _continue_backlog_loop (Datatypes.S (length ((m2, m_rid m2) :: rest))) st4 r = (st4, [])).
+      { rewrite loop_S. destruct Hcase as [(Hr & -> & _)|(Hr & D & _)].
+        - assert (HX4 : has_exchange_with st1 r = true).
+          { apply has_exchange_iff. rewrite E3. eexists. split; [apply in_xset; left; reflexivity|]. unfold e_remote. cbn. exact Hr2. }
+          assert (in_backlogs st1 r = true) as IB4 by (rewrite (s_nstart _ _ S1); exact HX4).
+          unfold in_backlogs in IB4. destruct (qget r (backlogs st1)) as [q4|] eqn:Q4; [|discriminate]. rewrite HX4. reflexivity.
+        - destruct (error_struct _ _ _ _ _ S1 D) as (_ & _ & _ & _ & Eb4 & _). rewrite Eb4, qget_qdel_same. reflexivity. }
+      rewrite Hloop in H. inv H. rewrite app_nil_r. splits; auto.
+      exists ((m2, m_rid m2) :: rest). split; auto. splits; auto. exists t, st1, oe. splits; auto.
+      * rewrite E1. unfold st3. proj. exact En.
+      * rewrite E3. unfold st3. proj. rewrite Ex. unfold mk_timer. reflexivity.
+      * unfold st3 in Hcase. proj. rewrite En in Hcase. exact Hcase.
     + unfold st3; proj. rewrite Ex. apply Forall_forall. intros e He. eapply entry_ok_frame; [|apply Hex2; exact He]; cbn; auto; lia.
     + unfold st3; proj. rewrite Ex. auto.
     + unfold st3; proj. apply Forall_forall. intros b Hb. apply in_qset in Hb. destruct Hb as [->|[Hb _]].
@@ -442,7 +538,6 @@ Proof.
     + intros r' Hne. transitivity (in_backlogs st r'); [unfold in_backlogs, st3; proj; rewrite qget_qset_other; auto|].
       rewrite (Hns2 r' Hne). reflexivity.
     + unfold rng_ok, st3. proj. rewrite Er. apply (s_rng _ _ S).
-    + unfold st3. proj. rewrite Enr. apply (s_norefuse _ _ S).
 Qed.
 
 Lemma recv_shape : forall seen st r mid b st' o, Struct seen st -> _remove_exchange st r mid b = (st', o) ->
@@ -507,9 +602,11 @@ Lemma retransmit_struct : forall seen st e1 h st' o, Struct seen st -> In e1 (ac
   _retransmit st h = (st', o) ->
   let m := h_message h in let k := (m_remote m, m_mid m) in
   Struct seen st' /\ no_error o /\ now st' = now st /\ xget k (active_exchanges st) = Some (m_rid m, h) /\
-  ( (h_counter h < MAX_RETRANSMIT (m_tuning m) /\ o = [OSend (now st) m] /\
-     active_exchanges st' = xset k (m_rid m, mk_timer st m (h_timeout h * 2) (h_counter h + 1)) (xdel k (active_exchanges st)) /\
-     backlogs st' = backlogs st /\ outgoing_requests st' = outgoing_requests st)
+  ( (h_counter h < MAX_RETRANSMIT (m_tuning m) /\ exists st1 oe, Struct seen st1 /\ now st1 = now st /\
+     active_exchanges st1 = xset k (m_rid m, mk_timer st m (h_timeout h * 2) (h_counter h + 1)) (xdel k (active_exchanges st)) /\
+     backlogs st1 = backlogs st /\ outgoing_requests st1 = outgoing_requests st /\
+     ((is_refusing st (m_remote m) = false /\ st' = st1 /\ o = [OSend (now st) m]) \/
+      (is_refusing st (m_remote m) = true /\ mm_dispatch_error st1 (m_remote m) = (st', oe) /\ o = oe)))
     \/
     (h_counter h = MAX_RETRANSMIT (m_tuning m) /\ o = gave_up_outputs st (m_remote m) /\
      active_exchanges st' = xdel k (active_exchanges st) /\ backlogs st' = qdel (m_remote m) (backlogs st) /\
@@ -523,14 +620,17 @@ Proof.
   destruct (pop_facts seen st k (m_rid m) h S X) as (_ & Hok & _ & _ & [q Q] & Hrest & Hbr & Hnd & Hcnt).
   unfold entry_ok in Hok. cbn [e_timer fst snd] in Hok. fold m in Hok. destruct Hok as (_ & _ & Hwf & Hc & Hnow & Hto & Hseen).
   unfold _retransmit in H. fold m k in H. rewrite X in H. cbn [fst] in Q, Hrest.
-  pose proof (s_norefuse _ _ S) as Hnr.
   pose proof (s_bl _ _ S) as Hbl. rewrite Forall_forall in Hbl.
   destruct (h_counter h <? MAX_RETRANSMIT (m_tuning m)) eqn:Hlt.
-  - unfold _schedule_retransmit, _send_via_transport, is_refusing in H. proj. rewrite Hnr in H. cbn in H. inv H. proj. splits; auto.
-    2:{ intros t e Hi. cbn in Hi. destruct Hi as [Hi|Hi]; [discriminate|tauto]. }
-    2:{ left. splits; auto. lia. }
-    set (h2 := {| h_due := now st + h_timeout h * 2; h_seq := next_seq st; h_message := m; h_timeout := h_timeout h * 2; h_counter := h_counter h + 1 |}).
-    constructor; proj.
+  - unfold _schedule_retransmit in H. proj.
+    set (h2 := {| h_due := now st + h_timeout h * 2; h_seq := next_seq st; h_message := m; h_timeout := h_timeout h * 2; h_counter := h_counter h + 1 |}) in *.
+    match type of H with _send_via_transport ?s _ = _ => set (st1 := s) in * end.
+    assert (S1 : Struct seen st1); [|
+      assert (Hir : is_refusing st1 (m_remote m) = is_refusing st (m_remote m)) by reflexivity;
+      destruct (send_via_cases _ _ _ _ H) as [(Hr & -> & ->)|(Hr & D)]; rewrite Hir in Hr;
+      [ splits; auto; [intros t e Hi; cbn in Hi; destruct Hi as [Hi|Hi]; [discriminate|tauto] | left; split; [lia|]; exists st1, []; splits; auto]
+      | destruct (error_struct _ _ _ _ _ S1 D) as (S2 & Hne & En2 & _); splits; auto; left; split; [lia|]; exists st1, o; splits; auto ] ].
+    unfold st1. constructor; proj.
     + apply Forall_forall. intros e He. apply in_xset in He. destruct He as [->|[He _]].
       * unfold entry_ok. cbn. splits; auto; lia.
       * apply Hrest in He. destruct He as [He _]. apply (Hex e He).
@@ -550,7 +650,6 @@ Proof.
         -- exists (k, (m_rid m, h)). split; auto.
         -- apply Hrest in He1. exists e. tauto.
     + apply (s_rng _ _ S).
-    + first [exact Hnr | reflexivity].
   - assert (Q' : qget (m_remote m) (backlogs st) = Some q) by exact Q. proj. rewrite Q' in H. unfold tm_dispatch_error in H. inv H. proj. splits; auto.
     2:{ intros t e Hi. apply in_map_iff in Hi. destruct Hi as [x [Hx _]]. discriminate. }
     2:{ right. splits; auto. lia. }
@@ -570,7 +669,6 @@ Proof.
         -- apply in_xdel. split; auto. intros Hk'. apply Hne. rewrite <- He2. unfold e_remote. rewrite Hk'. reflexivity.
         -- apply Hrest in He1. tauto.
     + apply (s_rng _ _ S).
-    + first [exact Hnr | reflexivity].
 Qed.
 
 Lemma next_timer_facts : forall st h, next_timer st = Some h ->
@@ -580,71 +678,42 @@ Proof.
   intros e' He'. eapply min_timer_le; eauto.
 Qed.
 
-Lemma cnt_filter_le : forall (f : exch -> bool) (l : list exch) x,
-  (count_occ Z.eq_dec (map e_rid (filter f l)) x <= count_occ Z.eq_dec (map e_rid l) x)%nat.
-Proof.
-  induction l as [|a l IH]; intros x; [cbn; auto|]. specialize (IH x).
-  cbn [filter]. destruct (f a); cbn [map count_occ]; destruct (Z.eq_dec (e_rid a) x); lia.
-Qed.
-
-(* MessageManager.dispatch_error for a remote: every exchange with it and its backlog are dropped, its requests fail *)
-Lemma error_struct : forall seen st r st' o, Struct seen st -> mm_dispatch_error st r = (st', o) ->
-  Struct seen st' /\ no_error o /\ now st' = now st /\
-  active_exchanges st' = filter (fun e => negb (fst (fst e) =? r)) (active_exchanges st) /\
-  backlogs st' = qdel r (backlogs st) /\
-  outgoing_requests st' = filter (fun q => negb (snd q =? r)) (outgoing_requests st) /\
-  o = map (fun q => OFail (now st) (fst q) NetworkError) (filter (fun q => snd q =? r) (outgoing_requests st)).
-Proof.
-  intros seen st r st' o S H. unfold mm_dispatch_error, tm_dispatch_error in H. inv H. proj. splits; auto.
-  2:{ intros t e Hi. apply in_map_iff in Hi. destruct Hi as [x [Hx _]]. discriminate. }
-  pose proof (s_ex _ _ S) as Hex. rewrite Forall_forall in Hex. pose proof (s_bl _ _ S) as Hbl. rewrite Forall_forall in Hbl.
-  assert (Hsub : forall e, In e (filter (fun e => negb (fst (fst e) =? r)) (active_exchanges st)) <-> In e (active_exchanges st) /\ e_remote e <> r).
-  { intros e. rewrite filter_In, negb_true_iff, Z.eqb_neq. reflexivity. }
-  constructor; proj.
-  - apply Forall_forall. intros e He. apply Hsub in He. eapply entry_ok_frame; [|apply Hex; apply He]. cbn. lia.
-  - apply nodup_map_filter. apply (s_ex_nodup _ _ S).
-  - apply Forall_forall. intros b Hb. apply in_qdel in Hb. eapply back_ok_frame. apply Hbl. apply Hb.
-  - apply nodup_qdel. apply (s_bl_nodup _ _ S).
-  - unfold live_rids. proj. pose proof (s_live _ _ S) as Hl. unfold live_rids in Hl. apply (NoDup_count_occ Z.eq_dec). intros x.
-    rewrite (NoDup_count_occ Z.eq_dec) in Hl. specialize (Hl x). rewrite count_occ_app in *.
-    eapply Nat.le_trans; [apply Nat.add_le_mono; [apply cnt_filter_le | apply cnt_qdel_le] | exact Hl].
-  - intros r'. destruct (Z.eq_dec r' r) as [->|Hne].
-    + transitivity false; [|symmetry; apply has_exchange_false_l; proj; intros e He; apply Hsub in He; tauto].
-      unfold in_backlogs. proj. rewrite qget_qdel_same. reflexivity.
-    + transitivity (in_backlogs st r'); [unfold in_backlogs; proj; rewrite qget_qdel_other; auto|].
-      rewrite (s_nstart _ _ S). apply bool_eq_iff. rewrite !has_exchange_iff. proj. split; intros [e [He1 He2]]; exists e; split; auto.
-      * apply Hsub. split; auto. congruence.
-      * apply Hsub in He1. tauto.
-  - apply (s_rng _ _ S).
-  - apply (s_norefuse _ _ S).
-Qed.
-
 Lemma struct_outgoing : forall seen st o, Struct seen st -> Struct seen (set_outgoing st o).
 Proof. intros. apply (struct_frame seen st); auto; try reflexivity; try (cbn; lia). Qed.
 
-(* a response datagram: the piggy-backed ACK acts like an ACK; otherwise the message layer's exchanges are untouched *)
+(* a response datagram: the piggy-backed ACK acts like an ACK; the token manager then forgets the answered request ([st2]); a
+   CON response is answered by an empty ACK / RST, which a refusing transport turns into dispatch_error for that remote *)
 Lemma response_shape : forall seen st r ty mid rid st' o, Struct seen st -> dispatch_response st r ty mid rid = (st', o) ->
-  exists st1 o1 o2, (if ty =? 0 then _remove_exchange st r mid false else (st, [])) = (st1, o1) /\ o = o1 ++ o2 /\
-    Struct seen st1 /\ no_error o1 /\
-    now st' = now st1 /\ active_exchanges st' = active_exchanges st1 /\ backlogs st' = backlogs st1 /\ rng st' = rng st1 /\ refusing st' = refusing st1 /\
-    incl (outgoing_requests st') (outgoing_requests st1) /\
-    (forall p, In p (outgoing_requests st1) -> fst p <> rid -> In p (outgoing_requests st')) /\
-    no_error o2 /\ (forall t m, ~ In (OSend t m) o2) /\ (forall t x e, ~ In (OFail t x e) o2).
+  exists st1 o1 st2 o2 o3, (if ty =? 0 then _remove_exchange st r mid false else (st, [])) = (st1, o1) /\ o = o1 ++ o2 ++ o3 /\
+    Struct seen st1 /\ no_error o1 /\ Struct seen st2 /\
+    now st2 = now st1 /\ active_exchanges st2 = active_exchanges st1 /\ backlogs st2 = backlogs st1 /\
+    incl (outgoing_requests st2) (outgoing_requests st1) /\
+    (forall p, In p (outgoing_requests st1) -> fst p <> rid -> In p (outgoing_requests st2)) /\
+    (o2 = [] \/ o2 = [OResult (now st1) rid]) /\
+    ((st' = st2 /\ (o3 = [] \/ exists b, o3 = [OEmpty (now st1) b r mid])) \/
+     (is_refusing st2 r = true /\ mm_dispatch_error st2 r = (st', o3))).
 Proof.
   intros seen st r ty mid rid st' o S H. unfold dispatch_response in H.
   destruct (if ty =? 0 then _remove_exchange st r mid false else (st, [])) as [st1 o1] eqn:E1.
   assert (S1 : Struct seen st1 /\ no_error o1).
   { destruct (ty =? 0); [eapply step_recv_struct; eauto|]. inv E1. split; auto. apply no_error_nil. }
   destruct S1 as [S1 Hn1].
-  unfold tm_process_response, send_empty, is_refusing in H.
-  destruct (existsb (fun q => (fst q =? rid) && (snd q =? r)) (outgoing_requests st1)) eqn:M; proj;
-    rewrite (s_norefuse _ _ S1) in H; cbn [existsb] in H; destruct (ty =? 1); injection H as Hs Ho; subst st' o;
-    exists st1, o1; eexists; (split; [reflexivity|]); (split; [reflexivity|]); splits; auto; proj;
-    try (intros p Hp; apply filter_In in Hp; tauto);
-    try (intros p Hp Hf; apply filter_In; split; auto; apply negb_true_iff; apply Z.eqb_neq; exact Hf);
-    try (intros p Hp; exact Hp);
-    try (intros t e Hi; cbn in Hi; intuition discriminate);
-    try (intros t x e Hi; cbn in Hi; intuition discriminate).
+  destruct (tm_process_response st1 rid r) as [[success st2] o2] eqn:P.
+  assert (P' : Struct seen st2 /\ now st2 = now st1 /\ active_exchanges st2 = active_exchanges st1 /\ backlogs st2 = backlogs st1 /\
+               incl (outgoing_requests st2) (outgoing_requests st1) /\
+               (forall p, In p (outgoing_requests st1) -> fst p <> rid -> In p (outgoing_requests st2)) /\
+               (o2 = [] \/ o2 = [OResult (now st1) rid])).
+  { unfold tm_process_response in P. destruct (existsb _ (outgoing_requests st1)); inv P; splits; auto; try (apply struct_outgoing; auto); proj.
+    - intros p Hp. apply filter_In in Hp. tauto.
+    - intros p Hp Hf. apply filter_In. split; auto. apply negb_true_iff. apply Z.eqb_neq. exact Hf.
+    - intros p Hp. exact Hp. }
+  destruct P' as (S2 & En & Ex & Eb & Hinc & Hkeep & Ho2).
+  destruct (if ty =? 1 then if success then send_empty st2 false r mid else send_empty st2 true r mid else (st2, [])) as [st3 o3] eqn:E3.
+  inv H. exists st1, o1, st2, o2, o3. splits; auto.
+  destruct (ty =? 1); [|inv E3; left; auto].
+  unfold send_empty in E3. destruct (is_refusing st2 r) eqn:IR.
+  - right. destruct success; auto.
+  - left. rewrite <- En. destruct success; inv E3; split; auto; right; eexists; reflexivity.
 Qed.
 
 Lemma step_struct : forall seen st e st' o, Struct seen st -> wf_event seen e -> step st e = (st', o) ->
@@ -666,10 +735,13 @@ Proof.
     eapply retransmit_struct in H; eauto. destruct H as (S' & Hne & _). auto.
   - destruct (error_struct _ _ _ _ _ S H) as (S' & Hn & _). auto.
   - inv H. split; [apply struct_outgoing; auto|apply no_error_nil].
-  - destruct (response_shape _ _ _ _ _ _ _ _ S H) as (st1 & o1 & o2 & E1 & -> & S1 & Hn1 & En & Ex & Eb & Er & Enr & _ & _ & Hn2 & _).
-    split; [|apply no_error_app; auto]. apply (struct_frame seen st1); auto. lia.
-  - cbn in W. subst on. inv H. split; [|apply no_error_nil]. apply (struct_frame seen st); auto; try reflexivity; try (cbn; lia).
-    cbn. rewrite (s_norefuse _ _ S). reflexivity.
+  - destruct (response_shape _ _ _ _ _ _ _ _ S H) as (st1 & o1 & st2 & o2 & o3 & E1 & -> & S1 & Hn1 & S2 & _ & _ & _ & _ & _ & Ho2 & Hc).
+    assert (Hn2 : no_error o2) by (destruct Ho2 as [->| ->]; intros t e Hi; cbn in Hi; intuition discriminate).
+    destruct Hc as [(-> & Ho3)|(_ & D)].
+    + split; auto. apply no_error_app; auto. apply no_error_app; auto.
+      destruct Ho3 as [->|[b ->]]; intros t e Hi; cbn in Hi; intuition discriminate.
+    + destruct (error_struct _ _ _ _ _ S2 D) as (S3 & Hn3 & _). split; auto. apply no_error_app; auto. apply no_error_app; auto.
+  - inv H. split; [|apply no_error_nil]. destruct S. constructor; auto.
 Qed.
 
 Lemma struct_init : forall mid0 draws, Forall (fun n => 0 <= n <= RNG_DEN) draws -> Struct [] (init mid0 draws).
